@@ -11,7 +11,9 @@ A *world* is the description of one workflow (components in topological order, t
 the state of every referenced path).  Worlds come in families: a base world and variants that differ
 from it in exactly one aspect (hash-relevant: executable, a literal argument, the contents of a file,
 a reference method, the image; hash-irrelevant: instance location, a component name, the stage
-indices, modification times)."""
+indices, modification times).  A *session* is one world instantiated ONCE on which hashes are asked for repeatedly
+while the referenced files are rewritten in place (gen_session / run_sessions): every answer must be the one of the
+contents on disk at the time of the ask."""
 import copy
 import hashlib
 import re
@@ -38,6 +40,10 @@ ASSUMPTIONS = [
     'no custom embeddingFunction (user-provided JavaScript fuzzy hash); no loop references; references to '
     'application dependencies are not generated',
     'file contents are short ASCII texts; files are read completely by md5_of_file',
+    'sessions (hashes asked repeatedly in one process while referenced files are rewritten in place): the asks are made on objects '
+    'that compute (after memoization_reset(), never asked, or of a new Experiment.experimentFromInstance); that an object which was '
+    'asked keeps its info and hash until it is reset is the design of the code and is not modelled; modification times are set with '
+    'os.utime (kept to the nanosecond / same second / +5 s / -7 s) or left to the clock',
 ]
 HEADER = 'Require Import V.Lib.JTree V.Memo.Model.\nOpen Scope string_scope.'
 KEYWORDS = ('executable', 'arguments', 'files', 'command', 'backend', 'image')
@@ -506,6 +512,16 @@ class Driver(object):
     def observe(self, w):
         """instantiate the world, set the file states, return per component (in world order) a dict
         {strong: (info, buf, hash), fuzzy: (...)}; replicated components yield one entry per replica"""
+        loc = None
+        try:
+            exp, loc = self.instantiate(w)
+            return self.ask(exp, w)
+        finally:
+            if loc:
+                shutil.rmtree(loc, ignore_errors=True)
+
+    def instantiate(self, w):
+        """a real instance of the world with its file states set; returns (Experiment, scratch directory to remove)"""
         loc = os.path.join(self.tmp, uuid.uuid4().hex[:12])
         os.makedirs(loc)
         pkg = os.path.join(loc, 'p.package')
@@ -555,26 +571,37 @@ class Driver(object):
             if w.get('mtime'):
                 for t in touched:
                     os.utime(t, (w['mtime'], w['mtime']))
-            nodes = exp.experimentGraph.graph.nodes
-            res = []
-            for c in w['comps']:
-                labels = ['stage%d.%s' % (c['stage'], c['name'])]
-                if c.get('replicate'):
-                    labels = ['stage%d.%s%d' % (c['stage'], c['name'], i) for i in range(c['replicate'])]
-                for lab in labels:
-                    spec = nodes[lab]['componentSpecification']
-                    o = {'oracle': self.oracles(spec, w, c)}
-                    for flav, fz in (('strong', False), ('fuzzy', True)):
-                        info = spec.memoization_info_fuzzy if fz else spec.memoization_info
-                        h = spec.memoization_hash_fuzzy if fz else spec.memoization_hash
-                        buf, h2 = self.to_hash(info)
-                        if h2 != h:
-                            buf = 'HASH-NOT-MD5-OF-BUFFER:%s' % buf
-                        o[flav] = (canon_info(info), canon_path(buf), h)
-                    res.append(o)
-            return res
-        finally:
+            return exp, loc
+        except BaseException:
             shutil.rmtree(loc, ignore_errors=True)
+            raise
+
+    def ask(self, exp, w, sel=None, reset=False):
+        """the memoization infos and hashes of the components of w (all, or those at the positions sel) on the objects of
+        exp; reset: call memoization_reset() on every component of the graph first"""
+        nodes = exp.experimentGraph.graph.nodes
+        if reset:
+            for lab in nodes:
+                nodes[lab]['componentSpecification'].memoization_reset()
+        res = []
+        for i, c in enumerate(w['comps']):
+            if sel is not None and i not in sel:
+                continue
+            labels = ['stage%d.%s' % (c['stage'], c['name'])]
+            if c.get('replicate'):
+                labels = ['stage%d.%s%d' % (c['stage'], c['name'], i) for i in range(c['replicate'])]
+            for lab in labels:
+                spec = nodes[lab]['componentSpecification']
+                o = {'oracle': self.oracles(spec, w, c)}
+                for flav, fz in (('strong', False), ('fuzzy', True)):
+                    info = spec.memoization_info_fuzzy if fz else spec.memoization_info
+                    h = spec.memoization_hash_fuzzy if fz else spec.memoization_hash
+                    buf, h2 = self.to_hash(info)
+                    if h2 != h:
+                        buf = 'HASH-NOT-MD5-OF-BUFFER:%s' % buf
+                    o[flav] = (canon_info(info), canon_path(buf), h)
+                res.append(o)
+        return res
 
 
 def canon_path(s):
@@ -1123,12 +1150,303 @@ def run_traversal(ctx, drv, n):
                      'C16 traversal: _memoization_info_to_hash buffer vs Memo.Model.ser_jv')
 
 
+# ------------------------------------------------------------------ sessions: hashes asked for repeatedly while files change
+SESSION_TIMES = ['keep', 'keep', 'keep', 'same_second', 'same_second', 'natural', 'natural', 'later', 'later', 'earlier']
+TIME_Z = {'keep': 0, 'same_second': 0, 'natural': 1, 'later': 5, 'earlier': -7}
+
+
+def session_paths(w):
+    """the paths of the world that some component references as a file: (table, key)"""
+    used = set()
+    for c in w['comps']:
+        for r in c['refs']:
+            if r['kind'] in ('input', 'data'):
+                used.add(('inputs' if r['kind'] == 'input' else 'data', r['path']))
+            elif r['kind'] == 'prodfile':
+                used.add(('out', '%d/%s' % (r['prod'], r['path'])))
+    return sorted(t for t in used if w[t[0]][t[1]][1] in ('file', 'missing'))
+
+
+def same_size_other(rng, content):
+    """different contents of exactly the same length (None for the empty string)"""
+    if not content:
+        return None
+    j = rng.randrange(len(content))
+    return content[:j] + rng.choice([x for x in 'abXZ019 ' if x != content[j]]) + content[j + 1:]
+
+
+def closure(w, sel):
+    """the components whose objects hold a hash after the components sel were asked: sel and their producers"""
+    out = set(sel)
+    for i in sel:
+        out |= set(k for k in range(len(w['comps'])) if depends_on(w, i, k))
+    return out
+
+
+def consumed_paths(w, comps):
+    out = set()
+    for i in comps:
+        for r in w['comps'][i]['refs']:
+            if r['kind'] in ('input', 'data'):
+                out.add(('inputs' if r['kind'] == 'input' else 'data', r['path']))
+            elif r['kind'] == 'prodfile':
+                out.add(('out', '%d/%s' % (r['prod'], r['path'])))
+    return out
+
+
+def gen_session(rng, base=None):
+    """a world, an optional first ask of some of its components, then rounds of (writes to referenced paths, an ask):
+    the writes replace the contents in place (same size / other size / the same contents / removal / creation) and
+    keep the modification time, move it within the second, leave it to the clock, or move it forward / backward; the ask
+    is made on the same objects after memoization_reset() (reset), on the objects of a new Experiment built on the
+    same instance directory (fresh), or on components that neither were asked before nor consume from one that was (other)"""
+    w = base if base is not None else gen_world(rng)
+    n = len(w['comps'])
+    sess = {'world': w, 'first': None, 'rounds': []}
+    x = rng.random()
+    if x < 0.45:
+        sess['first'] = list(range(n))
+    elif x < 0.9:
+        # (an ask of a consumer computes its producers too: the selection is closed under "consumes from")
+        sess['first'] = sorted(closure(w, rng.sample(range(n), rng.randint(1, max(1, n - 1)))))
+    cur = copy.deepcopy(w)
+    asked = closure(w, sess['first'] or [])
+    written = set()
+    for rnd in range(rng.choice([1, 1, 2, 2, 3])):
+        paths = session_paths(cur)
+        if not paths:
+            break
+        writes = []
+        for t in rng.sample(paths, min(len(paths), rng.choice([1, 1, 1, 2]))):
+            content, st = cur[t[0]][t[1]]
+            k = rng.random()
+            if st == 'missing':
+                wr = {'content': rng.choice(CONTENTS), 'state': 'file', 'kind': 'create'}
+            elif k < 0.55 and same_size_other(rng, content) is not None:
+                wr = {'content': same_size_other(rng, content), 'state': 'file', 'kind': 'same_size'}
+            elif k < 0.75:
+                wr = {'content': content + rng.choice(['+more', 'Q']), 'state': 'file', 'kind': 'other_size'}
+            elif k < 0.88:
+                wr = {'content': content, 'state': 'file', 'kind': 'same_contents'}
+            else:
+                wr = {'content': content, 'state': 'missing', 'kind': 'remove'}
+            wr.update(table=t[0], key=t[1], time=rng.choice(SESSION_TIMES))
+            cur[t[0]][t[1]] = [wr['content'], wr['state']]
+            written.add(t)
+            writes.append(wr)
+        # components never asked, whose producers that were asked (their objects keep their hash: no reset) consume,
+        # directly or not, none of the paths written so far
+        other = [i for i in range(n) if i not in asked and
+                 not any(consumed_paths(cur, closure(cur, [p])) & written for p in closure(cur, [i]) & asked)]
+        view = rng.choice(['reset', 'fresh', 'other', 'other'] if other else ['reset', 'fresh'])
+        sel = sorted(closure(cur, other)) if view == 'other' else list(range(n))
+        sess['rounds'].append({'writes': writes, 'view': view, 'sel': sel})
+        asked = set(sel) | asked
+    return sess if sess['rounds'] else None
+
+
+def corpus_sessions():
+    """the boundary: a producer overwrites its fixed-width result in place within the same second between the asks of two
+    consumers (one asked before, reset; one never asked); the same with a longer result a while later; an input patched
+    in place and seen by a new Experiment object"""
+    loc = ('local',)
+
+    def world():
+        return {'inputs': {'in0.txt': ['hello', 'file']}, 'data': {'d0.txt': ['dd', 'file']}, 'datadirs': ['sub0'],
+                'out': {'0/out.txt': ['energy: 0.1111', 'file']}, 'abs': {}, 'comps': [
+                    {'name': 'A', 'stage': 0, 'exe': 'echo', 'refs': [], 'args': ['hello'], 'backend': loc},
+                    {'name': 'B1', 'stage': 1, 'exe': 'cat', 'refs': [{'kind': 'prodfile', 'prod': 0, 'path': 'out.txt', 'method': 'ref'}],
+                     'args': [0], 'backend': loc},
+                    {'name': 'w', 'stage': 1, 'exe': 'cat', 'refs': [{'kind': 'prodfile', 'prod': 0, 'path': 'out.txt', 'method': 'ref'},
+                                                                      {'kind': 'input', 'path': 'in0.txt', 'method': 'copy'}],
+                     'args': [0], 'backend': loc}]}
+
+    def wr(table, key, content, kind, time, state='file'):
+        return {'table': table, 'key': key, 'content': content, 'state': state, 'kind': kind, 'time': time}
+    return [
+        {'world': world(), 'first': [0, 1], 'rounds': [
+            {'writes': [wr('out', '0/out.txt', 'energy: 0.2222', 'same_size', 'keep')], 'view': 'other', 'sel': [0, 2]},
+            {'writes': [], 'view': 'reset', 'sel': [0, 1, 2]},
+            {'writes': [wr('out', '0/out.txt', 'energy: 0.3333', 'same_size', 'natural')], 'view': 'reset', 'sel': [0, 1, 2]}]},
+        {'world': world(), 'first': [0, 1, 2], 'rounds': [
+            {'writes': [wr('out', '0/out.txt', 'energy: 0.22222', 'other_size', 'later')], 'view': 'reset', 'sel': [0, 1, 2]},
+            {'writes': [wr('out', '0/out.txt', 'energy: 0.1111', 'other_size', 'earlier')], 'view': 'reset', 'sel': [0, 1, 2]}]},
+        {'world': world(), 'first': [0, 1, 2], 'rounds': [
+            {'writes': [wr('inputs', 'in0.txt', 'hellO', 'same_size', 'same_second')], 'view': 'fresh', 'sel': [0, 1, 2]},
+            {'writes': [wr('inputs', 'in0.txt', 'hellO', 'remove', 'keep', 'missing')], 'view': 'fresh', 'sel': [0, 1, 2]},
+            {'writes': [wr('inputs', 'in0.txt', 'hello', 'create', 'keep')], 'view': 'reset', 'sel': [0, 1, 2]}]},
+    ]
+
+
+def session_target(inst, w, wr):
+    if wr['table'] == 'inputs':
+        return os.path.join(inst, 'input', wr['key'])
+    if wr['table'] == 'data':
+        return os.path.join(inst, 'data', wr['key'])
+    p, path = wr['key'].split('/', 1)
+    c = w['comps'][int(p)]
+    return os.path.join(inst, 'stages', 'stage%d' % c['stage'], c['name'], path)
+
+
+def session_location(w, wr):
+    """the path as the model names it (d_location)"""
+    if wr['table'] == 'inputs':
+        return 'input/' + wr['key']
+    if wr['table'] == 'data':
+        return 'data/' + wr['key']
+    p, path = wr['key'].split('/', 1)
+    c = w['comps'][int(p)]
+    return 'stages/stage%d/%s/%s' % (c['stage'], c['name'], path)
+
+
+def apply_write(inst, w, wr):
+    target = session_target(inst, w, wr)
+    if wr['state'] == 'missing':
+        os.remove(target)
+        return
+    st = os.stat(target) if os.path.exists(target) else None
+    if not os.path.isdir(os.path.dirname(target)):
+        os.makedirs(os.path.dirname(target))
+    with open(target, 'w') as f:
+        f.write(wr['content'])
+    if st is not None and wr['time'] != 'natural':
+        m = st.st_mtime_ns
+        new = {'keep': m, 'same_second': m - m % 10 ** 9 + (m % 10 ** 9 + 123456789) % 10 ** 9,
+               'later': m + 5 * 10 ** 9, 'earlier': m - 7 * 10 ** 9}[wr['time']]
+        os.utime(target, ns=(st.st_atime_ns, new))
+
+
+def expected_files(w, c, flav, obs):
+    """the file entries of c in the current state of w (mirror of Memo.Model.files_of); None: not defined here"""
+    out = []
+    for r in c['refs']:
+        st, content = state_of(w, r)
+        if st == 'FMissing':
+            return None
+        if content is None:
+            continue
+        p = r.get('prod')
+        if flav == 'strong' or p is None:
+            h = hashlib.md5(content.encode('utf-8')).hexdigest()
+        else:
+            if obs.get(p) is None or obs[p]['fuzzy'][2] is None:
+                return None
+            h = 'fuzzy#%s#%s' % (obs[p]['fuzzy'][2], r['path'])
+        out.append('%s:%s' % (h, r['method']))
+    return sorted(out)
+
+
+def run_sessions(ctx, drv, sessions):
+    """drives every session on ONE real instance (one process, same paths); compares every answer with the answer of a
+    new instance elsewhere that has only ever held the current contents, with the current contents themselves, and
+    with Memo.Model.session_chars / session inside Coq"""
+    terms = []
+    for sess in sessions:
+        w0 = sess['world']
+        n = len(w0['comps'])
+        loc = None
+        try:
+            try:
+                exp, loc = drv.instantiate(w0)
+            except Exception as e:
+                ctx.count('session_rejected_%s' % type(e).__name__)
+                continue
+            inst = exp.instanceDirectory.location
+            nodes = exp.experimentGraph.graph.nodes
+            oracles = [drv.oracles(nodes['stage%d.%s' % (c['stage'], c['name'])]['componentSpecification'], w0, c) for c in w0['comps']]
+            asks = []       # (sel, observations, world at that time, round)
+            cur = copy.deepcopy(w0)
+            if sess['first'] is not None:
+                asks.append((sess['first'], drv.ask(exp, cur, sel=sess['first']), copy.deepcopy(cur), None))
+            changed = False
+            for rn, rnd in enumerate(sess['rounds']):
+                for wr in rnd['writes']:
+                    apply_write(inst, w0, wr)
+                    if [wr['content'], wr['state']] != cur[wr['table']][wr['key']]:
+                        changed = True
+                    cur[wr['table']][wr['key']] = [wr['content'], wr['state']]
+                    ctx.count('session_write_%s' % wr['kind'])
+                    ctx.count('session_time_%s' % wr['time'])
+                ctx.count('session_view_%s' % rnd['view'])
+                if rnd['view'] == 'fresh':
+                    exp = drv.D.Experiment.experimentFromInstance(inst)
+                obs = drv.ask(exp, cur, sel=rnd['sel'], reset=(rnd['view'] == 'reset'))
+                asks.append((rnd['sel'], obs, copy.deepcopy(cur), rn))
+                # the same contents in an instance elsewhere that never held anything else
+                ref = drv.observe(cur)
+                by = dict(zip(rnd['sel'], obs))
+                for i in rnd['sel']:
+                    case = {'session': sess, 'round': rn, 'comp': i}
+                    for flav in ('strong', 'fuzzy'):
+                        if by[i][flav][2] != ref[i][flav][2] or by[i][flav][0] != ref[i][flav][0]:
+                            ctx.fail(dict(case, flavour=flav, got=by[i][flav][0], fresh_instance=ref[i][flav][0]),
+                                     'the %s memoization hash computed after referenced files were rewritten in place is not the one of '
+                                     'an instance that holds the same contents and never held others: the hash depends on what the '
+                                     'path contained earlier / on when it was written / on what was asked before, not on the contents '
+                                     'only' % flav, [])
+                        info = by[i][flav][0]
+                        want = expected_files(cur, cur['comps'][i], flav, by)
+                        if info is not None and 'files' in info and want is not None and info['files'] != want:
+                            ctx.fail(dict(case, flavour=flav, files=info['files'], expected=want),
+                                     'the file entries of the %s memoization info are not the digests of the CURRENT contents of the '
+                                     'files the component consumes' % flav, [])
+                if len(rnd['sel']) == n:
+                    check_world(ctx, cur, obs, 'session')
+            nontriv = changed and any(o['strong'][2] is not None and o['strong'][0].get('files') for o in asks[-1][1])
+            ctx.case(['session', sess], nontriv)
+            ctx.count('sessions')
+            ctx.count('session_first_%s' % ('none' if sess['first'] is None else ('all' if len(sess['first']) == n else 'some')))
+            if nontriv:
+                ctx.sample({'session': {'first': sess['first'], 'rounds': sess['rounds']}, 'flowir': json.loads(flowir_of(w0)),
+                            'hashes': [[(o['strong'][2], o['fuzzy'][2]) for o in a[1]] for a in asks]}, limit=2)
+            if any(malformed(a[1]) for a in asks):
+                ctx.disagree({'session': sess}, [a[1] for a in asks], None, 'C16 session: implementation output not expressible in the model')
+                continue
+            terms.append((coq_session(sess, asks, oracles), sess, asks))
+        finally:
+            if loc:
+                shutil.rmtree(loc, ignore_errors=True)
+    return terms
+
+
+def coq_session(sess, asks, oracles):
+    w0 = sess['world']
+    comps, contents = model_comps(w0)
+    comps = ['(%s, (%s, %s))' % (cm, clist(o['disc'], cstr), clist(o['order'], cnat)) for cm, o in zip(comps, oracles)]
+    ops, answers = [], []
+
+    def ask_ops(sel, obs):
+        for flav, fz in (('strong', 'false'), ('fuzzy', 'true')):
+            ops.append('OAsk %s %s' % (fz, clist(sel, cnat)))
+            answers.append(clist([coq_obs(o[flav]) for o in obs]))
+    tbl = {}
+    for sel, obs, cur, rn in asks:
+        if rn is not None:
+            for wr in sess['rounds'][rn]['writes']:
+                st = '(FFile %s)' % cstr(wr['content']) if wr['state'] == 'file' else 'FMissing'
+                ops.append('OWrite %s %s %s' % (cstr(session_location(w0, wr)), cZ(TIME_Z[wr['time']]), st))
+                contents.append(wr['content'])
+        ask_ops(sel, obs)
+        for o in obs:
+            for flav in ('strong', 'fuzzy'):
+                buf = o[flav][1]
+                if buf is not None:
+                    tbl[buf] = o[flav][2] if '/ABSDIR' in buf else hashlib.md5(buf.encode('utf-8')).hexdigest()
+    for c in contents:
+        tbl[c] = hashlib.md5(c.encode('utf-8')).hexdigest()
+    t = clist(['(%s, %s)' % (cstr(k), cstr(v)) for k, v in sorted(tbl.items())])
+    return '(%s, %s, (%s, %s))' % (t, clist(comps), clist(ops), clist(answers))
+
+
+
 # ------------------------------------------------------------------ run
-def explore(ctx, families):
-    """families: list of (tag, base world, [(variant world, description)])"""
+def explore(ctx, families, sessions=()):
+    """families: list of (tag, base world, [(variant world, description)]); sessions: see gen_session"""
     drv = Driver()
     terms = []
+    sterms = []
     try:
+        sterms = run_sessions(ctx, drv, sessions)
         for tag, base, variants in families:
             try:
                 bobs = drv.observe(base)
@@ -1206,6 +1524,18 @@ def explore(ctx, families):
                                        'infos (tbl_md5 (fst (fst k))) false (map fst (snd (fst k))))' % tbl)[-9000:]
         ctx.disagree({'world': w}, [{'strong': o['strong'], 'fuzzy': o['fuzzy']} for o in obs], m,
                      'C16 info: memoization_info/_fuzzy, traversal buffer and hash vs Memo.Model.infos_chars/infos/serialise')
+    # sessions: every answer against Memo.Model.session_chars (and session, the token model, on blank-delimited worlds)
+    splain = [t for t in sterms if not special(t[1]['world'])]
+    sbound = [t for t in sterms if special(t[1]['world'])]
+    sbad = [splain[i] for i in ctx.model_mismatches(HEADER, [t[0] for t in splain], 'check_session_both', chunk=20, name='session')]
+    sbad += [sbound[i] for i in ctx.model_mismatches(HEADER, [t[0] for t in sbound], 'check_session_chars', chunk=20, name='session_boundary')]
+    for n, t in enumerate(sbad):
+        term, sess, asks = t
+        m = ''
+        if n < 2:
+            m = ctx.model_eval(HEADER, 'let k := %s in session_chars (tbl_md5 (fst (fst k))) (snd (fst k)) (fst (snd k))' % term)[-9000:]
+        ctx.disagree({'session': sess}, [[{'strong': o['strong'], 'fuzzy': o['fuzzy']} for o in a[1]] for a in asks], m,
+                     'C16 session: hashes asked repeatedly while the referenced files change vs Memo.Model.session_chars/session')
 
 
 def make_family(rng, tag, base, nvar):
@@ -1236,7 +1566,11 @@ def run(ctx):
                 'the new one: pre-gen next to gen); producer chains of length 1-3; consumers of two references of which one is a '
                 'word-boundary-delimited tail of the other (producers gen / pre-gen / pre.gen, file outer/gen/out.txt next to '
                 'gen/out.txt, folders, same name in two stages; relative and absolute spellings, either listing order) with the same '
-                'work under other producer names as a variant; plus random nested '
+                'work under other producer names as a variant; sessions on one real instance: an optional first ask of all / some '
+                'components, then 1-3 rounds of writes in place to referenced inputs, data files and producer-made files (other '
+                'contents of the same size | other size | same contents | removal | creation; modification time kept | same second | '
+                'clock | later | earlier) each followed by an ask after memoization_reset() | on a new Experiment object of the same '
+                'directory | on components never asked before; plus random nested '
                 'dictionaries for the traversal alone. non-trivial world = some component has a hash and consumes a file or a '
                 'producer; distinct by (world description, aspect)')
     families = []
@@ -1259,7 +1593,14 @@ def run(ctx):
         prods = sorted(set(r['prod'] for r in w['comps'][k]['refs'] if r.get('prod') is not None))
         fam[2].append(variant(rng, w, 'rename', comp=rng.choice(prods)))
         families.append(fam)
-    explore(ctx, families)
+    # hashes asked for repeatedly in one process while the referenced files are rewritten in place
+    sessions = corpus_sessions()
+    for i in range(22 if ctx.tier == 'quick' else 90):
+        base = chain_world(rng, rng.randint(1, 3)) if i % 5 == 4 else None
+        sess = gen_session(rng, base)
+        if sess is not None:
+            sessions.append(sess)
+    explore(ctx, families, sessions)
 
 
 def replay(ctx, path):
@@ -1274,6 +1615,15 @@ def replay(ctx, path):
         fams.append(('replay', c['world_a'], [(c['world_b'], {'aspect': 'location', 'comp': None})] if c['world_b'] != c['world_a'] else []))
     elif 'world' in c:
         fams.append(('replay', c['world'], []))
+    elif 'session' in c:
+        for comp in c['session']['world']['comps']:
+            comp['backend'] = tuple(comp['backend'])
+        explore(ctx, [], [c['session']])
+        for f in ctx.failures:
+            print('REPRODUCED: %s' % f['what'])
+        for f in ctx.disagreements:
+            print('DISAGREEMENT: %s' % (str(f)[:2000],))
+        return 1 if (ctx.failures or ctx.disagreements) else 0
     else:
         print('replay file names no input (proof/correspondence obligation): re-run ./check C16')
         return 2
